@@ -9,6 +9,7 @@ from __future__ import annotations
 
 import ast
 
+from .c09_blocks import Block, find_block, norm as bnorm
 from .c09_terms import (Unsup, NONE, TRUE, FALSE, ELL, FULL, ZEROS, EMPTY, const, is_const, is_tag, subterms, tmap, is_slice, is_basic_item,
                         merge_sel, relation, mkidx, shape_after, show, MP_NAMES, MUT_METHODS)
 
@@ -134,6 +135,7 @@ class Launch:
     def __init__(self, lid):
         self.lid = lid
         self.pid = self.func = self.node = self.elem = self.count = self.ret = self.fid = None
+        self.block = None
         self.drained = False
         self.seq0 = self.seq1 = self.drain_seq = None
         self.inproc = False
@@ -337,10 +339,13 @@ class Sim:
         elem, cnt, lid = self.iter_desc(v)
         self.frames.append(LoopFrame(-1, "comp", cnt, depth=len(self.frames)))
         try:
-            e = self.snap(elem(("lv", len(self.frames) - 1)))
+            lv = ("lv", len(self.frames) - 1)
+            e = self.snap(elem(lv))
         finally:
             self.frames.pop()
-        return ("comp", e, cnt if cnt is not None else NONE)
+        h = 1 + max([x[1] for x in subterms(e) if is_tag(x, "bv")], default=-1)
+        e = tmap(lambda x: ("bv", h) if x == lv else x, e)          # the bound variable is named by its nesting height: alpha-canonical
+        return ("comp", e, self.snap(cnt) if cnt is not None else NONE)
 
     def subref(self, ref, items):
         _, oid, shape, sel = ref
@@ -951,7 +956,7 @@ class Sim:
 
     def must_inline(self, rel, q, args, kws):
         s = self.world.summary(rel, q)
-        if s & {"global", "mutates", "mp", "calls_param", "trivial", "stores"}:
+        if s & {"global", "mutates", "mp", "calls_param", "trivial", "stores", "iter"}:
             return True
         if self.frames or self.ctx[0] != "parent":
             return True
@@ -1362,6 +1367,17 @@ class Sim:
             lv = ("lv", len(self.frames) - 1)
             L.lv = lv
             L.elem = elem(lv)
+            L.block = None
+            fb = find_block(self.snap(L.elem, record=False), lv)
+            if fb is not None:
+                # the element holds (F(k), F(k+1)): the task owns the indices range(F(k), F(k+1)); k is named apart from the indices
+                blk = ("blk", L.lid)
+                L.block = Block(fb[2], lv, blk, self.snap(cnt, record=False) if cnt is not None else None, pool.processes)
+                L.block.paths = fb[:2]
+                L.elem = tmap(lambda x: blk if x == lv else x, L.elem)
+                L.ntasks = cnt
+                L.count = L.block.span()
+                fr.count = L.count
             if star and not is_tag(L.elem, "tuple", "list"):
                 raise Unsup("starmap over tasks that are not literal tuples")
             L.ret = self.call_value(func, list(L.elem[1:]) if star else [L.elem], {}, node)
@@ -1590,6 +1606,25 @@ class Sim:
                     self.exec_block(st.body, fr)
                 except _Continue:
                     pass
+            self.exec_block(st.orelse, fr)
+            return
+        L = self.launches[self.ctx[1] - 1] if self.ctx[0] == "task" else None
+        if L is not None and L.block is not None and len(self.frames) == 1 and self.frames[0].fid == L.fid and \
+                is_tag(itv, "call") and itv[1] == ("ext", "builtins.range") and len(itv[2]) == 2 and not itv[3] and \
+                bnorm(self.snap(itv[2][0], record=False)) == L.block.start and bnorm(self.snap(itv[2][1], record=False)) == L.block.stop:
+            # the loop over the task's own block: together with the task number it enumerates the indices F(0) .. F(n) - 1 once each (provided
+            # the edges do not decrease, which C09-R1 demands): the body is executed for the generic index
+            L.block.used += 1
+            self.assign_target(st.target, L.lv, fr)
+            try:
+                self.exec_block(st.body, fr)
+            except _Continue:
+                pass
+            except _Return:
+                raise Unsup("return inside a loop")
+            for n in assigned_names(st):
+                if n in fr.local_names:
+                    fr.locals[n] = ("poison", n)
             self.exec_block(st.orelse, fr)
             return
         elem, cnt, lid = self.iter_desc(itv)
